@@ -1,1 +1,317 @@
-"""rules for c03 (under construction)"""
+"""C03 - the reported residual is the true collocation defect; stopping is sound (structural clauses)."""
+
+import ast
+import re
+
+from ..cfg import FuncCFG, walk_no_nested
+from ..model import AnalysisError, ClassInfo
+from ..norm import Normalizer, bool_nf, nnf, guards_nnf
+from ..runner import rule
+from .. import facts
+from .. import sweepers as sw
+from ..sig import Signature
+
+CTRL = 'pySDC/implementations/controller_classes/'
+NONMPI = CTRL + 'controller_nonMPI.py'
+MPI = CTRL + 'controller_MPI.py'
+PARADIAG = CTRL + 'controller_ParaDiag_nonMPI.py'
+CC = 'pySDC/implementations/convergence_controller_classes/'
+
+RES_TYPES = ['full_abs', 'last_abs', 'full_rel', 'last_rel']
+
+
+def _dispatch_on_residual_type(fn):
+    chains = [c for c in facts.dispatch_chains(fn) if c['subject'].endswith('params.residual_type')]
+    return chains
+
+
+@rule('C03', 'C03.R1', 'Sweeper.compute_residual: residual[m] = integrate()[m] + u[0] - u[m+1] (+tau[m]); norm dispatch on residual_type; skip only on request', floor=8)
+def r1(ctx, R):
+    repo = ctx.repo
+    rel = 'pySDC/core/sweeper.py'
+    fn = repo.func(rel, 'Sweeper.compute_residual')
+    w = f'{rel}:Sweeper.compute_residual'
+    R.fn(w)
+    sig = Signature(fn, rename=sw.role_renames(fn))
+    N = sig.N
+    lines = {l.text() for l in sig.lines}
+    want = [
+        'L.residual = self.integrate() |  | stage not in self.params.skip_residual_computation',
+        'L.residual[i1 - 1] += +L.u[0] -L.u[i1] | i1=1..M | stage not in self.params.skip_residual_computation',
+        'L.residual[i1 - 1] += +L.tau[i1 - 1] | i1=1..M | stage not in self.params.skip_residual_computation and L.tau[i1 - 1] is not None',
+    ]
+    for t in want:
+        R.check(t in lines, f'Sweeper.compute_residual :: {t.split(" | ")[0]}', w, t, sorted(l for l in lines if l.startswith('L.residual')))
+    extra = [l for l in lines if l.startswith('L.residual') and l not in want]
+    R.check(not extra, 'Sweeper.compute_residual :: no other contribution to the defect', w, 'only integrate + u0 - u (+tau)', extra)
+    # the norm list is abs() of that defect, node by node
+    norm = [c for c in N.contribs if c.rhs == 'abs(L.residual[i1 - 1])']
+    R.check(len(norm) == 1 and re.fullmatch(r'\w+\[i1 - 1\]', norm[0].target) is not None, 'Sweeper.compute_residual :: res_norm[m] = abs(residual[m])', w, 'one abs() per node appended to the norm list', [c.describe() for c in norm])
+    nl = norm[0].target.split('[')[0] if norm else 'res_norm'
+    arms = {c.guards[-1] if c.guards else '': c.rhs for c in N.contribs if c.target == 'L.status.residual' and 'skip_residual_computation' not in (c.guards[-1] if c.guards else '') or (c.target == 'L.status.residual' and len(c.guards) > 1)}
+    want_arms = {'full_abs': f'max({nl})', 'last_abs': f'{nl}[-1]', 'full_rel': f'max({nl}) / abs(L.u[0])', 'last_rel': f'{nl}[-1] / abs(L.u[0])'}
+    got = {}
+    for c in N.contribs:
+        if c.target == 'L.status.residual':
+            for k in RES_TYPES:
+                if c.guards and c.guards[-1] == f"L.params.residual_type == '{k}'":
+                    got[k] = c.rhs
+    R.check(got == want_arms, 'Sweeper.compute_residual :: status.residual per residual_type', w, want_arms, got)
+    ch = _dispatch_on_residual_type(fn)
+    R.check(len(ch) == 1 and sorted(ch[0]['names']) == sorted(RES_TYPES) and ch[0]['else_kind'] == 'raise', 'Sweeper.compute_residual :: dispatch is exhaustive and ends in raise', w, 'four names + raising else', [(c['names'], c['else_kind']) for c in ch])
+    # skip branch only when the stage was listed by the user
+    skip = [c for c in N.contribs if c.target == 'L.status.residual' and c.guards == ['stage in self.params.skip_residual_computation']]
+    R.check(len(skip) == 1, 'Sweeper.compute_residual :: residual kept/zeroed without computation only if stage in skip_residual_computation', w, 'one guarded early return', [c.describe() for c in skip])
+
+
+@rule('C03', 'C03.R2', 'every compute_residual implementation that reduces a norm list honours the configured residual_type (4 names, raising else)', floor=6)
+def r2(ctx, R):
+    repo = ctx.repo
+    base = sw.sweeper_base(repo)
+    impls = []
+    for ci in repo.overriders(base, 'compute_residual'):
+        if repo.is_library(ci):
+            impls.append((ci.module, ci, ci.methods['compute_residual']))
+    gm = repo.module('pySDC/implementations/problem_classes/generic_spectral.py')
+    for name in ('compute_residual_DAE', 'compute_residual_DAE_MPI'):
+        if name not in gm.functions:
+            raise AnalysisError(f'generic_spectral.{name} vanished')
+        impls.append((gm, None, gm.functions[name]))
+    for m, ci, fn in impls:
+        name = (ci.name + '.' if ci else '') + fn.name
+        w = f'{m.relpath}:{name}'
+        R.fn(w)
+        N = Normalizer(fn)
+        writes = [c for c in N.contribs if re.fullmatch(r'(L|lvl)\.status\.residual', c.target) and not any('skip_residual_computation' in g and 'not in' not in g for g in c.guards)]
+        if not writes:
+            R.ok(f'{name} :: delegates (no own reduction)', w, found='super()' if any(c[0].startswith('super().compute_residual') for c in N.calls) else 'none')
+            continue
+        if all(c.rhs in ('0.0', '0') for c in writes):
+            R.exc(f'{name} :: residual identically zero', w, 'direct method (multistep): there is no iteration defect, the residual is defined as 0')
+            continue
+        ch = _dispatch_on_residual_type(fn)
+        ok = len(ch) == 1 and sorted(ch[0]['names']) == sorted(RES_TYPES) and ch[0]['else_kind'] == 'raise'
+        # each arm: full -> max/allreduce(MAX) ; last -> [-1]/bcast(root=last) ; rel -> divided by abs(u[0])
+        arms = {}
+        for c in writes:
+            for k in RES_TYPES:
+                if c.guards and c.guards[-1] == f"L.params.residual_type == '{k}'":
+                    arms[k] = c.rhs
+        def arm_ok(k, rhs):
+            if rhs is None:
+                return False
+            full = ('max(' in rhs or 'op=MPI.MAX' in rhs)
+            last = ('[-1]' in rhs or 'root=self.comm.size - 1' in rhs)
+            rel = '/ abs(L.u[0])' in rhs
+            return (full if k.startswith('full') else last and not full) and (rel == k.endswith('rel'))
+        ok = ok and all(arm_ok(k, arms.get(k)) for k in RES_TYPES)
+        R.check(ok, f'{name} :: dispatch on residual_type', w, 'full_abs->max, last_abs->last, full_rel->max/|u0|, last_rel->last/|u0|, else raise', {'chains': [(c['names'], c['else_kind']) for c in ch], 'arms': arms, 'writes': [c.rhs for c in writes]})
+
+
+def _first_loop_calls(cfg, fn, names):
+    """for each name the CFG nodes that call <something>.<name>(...)"""
+    out = {}
+    for n in cfg.stmt_of:
+        for c in cfg.calls_at(n):
+            f = c.func
+            nm = f.attr if isinstance(f, ast.Attribute) else (f.id if isinstance(f, ast.Name) else None)
+            if nm in names:
+                out.setdefault(nm, []).append((n, c))
+    return out
+
+
+@rule('C03', 'C03.R3', 'IT_CHECK: send -> receive -> residual on level 0, all before the convergence decision; no write to level data in between', floor=6)
+def r3(ctx, R):
+    repo = ctx.repo
+    for rel, cn in ((NONMPI, 'controller_nonMPI'), (MPI, 'controller_MPI')):
+        fn = repo.func(rel, f'{cn}.it_check')
+        w = f'{rel}:{cn}.it_check'
+        R.fn(w)
+        cfg = FuncCFG(fn)
+        calls = _first_loop_calls(cfg, fn, {'send_full', 'recv_full', 'compute_residual', 'convergence_control', 'post_iteration_processing'})
+        def lvl0(c):
+            kw = {k.arg: ast.unparse(k.value) for k in c.keywords}
+            return kw.get('level') == '0'
+        snd = [n for n, c in calls.get('send_full', []) if lvl0(c)]
+        rcv = [n for n, c in calls.get('recv_full', []) if lvl0(c)]
+        res = [(n, c) for n, c in calls.get('compute_residual', []) if ast.unparse(c.func).endswith('levels[0].sweep.compute_residual')]
+        dec = [n for n, c in calls.get('convergence_control', [])]
+        if not (snd and rcv and res and dec):
+            raise AnalysisError(f'{w}: send_full/recv_full/compute_residual/convergence_control call sites not all found')
+        ok1 = len(snd) == 1 and len(rcv) == 1 and len(res) == 1 and cfg.dominates(snd[0], rcv[0]) and cfg.dominates(rcv[0], res[0][0])
+        # the receive is followed by the residual on every normal path of the same iteration (MPI: an interrupt may return early)
+        same_block = cfg.loops_of[id(cfg.stmt_of[rcv[0]])] == cfg.loops_of[id(cfg.stmt_of[res[0][0]])]
+        R.check(ok1 and same_block, f'{cn}.it_check :: send_full(0) -> recv_full(0) -> compute_residual() in this order', w, 'dominance chain within one block', {'send': len(snd), 'recv': len(rcv), 'residual': len(res)})
+        st = {k.arg: ast.unparse(k.value) for k in res[0][1].keywords}.get('stage')
+        R.check(st == "'IT_CHECK'", f'{cn}.it_check :: residual computed with stage=IT_CHECK', w, "'IT_CHECK'", st)
+        # decision strictly after: for the serial controller the residual loop must be completed for ALL steps first
+        res_loops = cfg.loops_of[id(cfg.stmt_of[res[0][0]])]
+        okd = True
+        detail = []
+        for d in dec:
+            dl = cfg.loops_of[id(cfg.stmt_of[d])]
+            if res_loops:
+                # residual in a loop over steps: the decision must live in a later loop (header of the residual loop dominates, loops differ)
+                first = cfg.node_of[id(res_loops[0])]
+                later = dl and dl[0] is not res_loops[0] and cfg.dominates(first, cfg.node_of[id(dl[0])]) and not cfg.reachable(cfg.node_of[id(dl[0])], first)
+                okd &= bool(later)
+                detail.append('decision loop follows the residual loop' if later else 'decision not in a later loop')
+            else:
+                okd &= cfg.dominates(res[0][0], d)
+                detail.append('residual dominates the decision' if cfg.dominates(res[0][0], d) else 'residual does not dominate the decision')
+        R.check(okd, f'{cn}.it_check :: the convergence decision comes after the residual of every running step', w, 'residual (loop) precedes convergence_control on all paths', detail)
+        # no store into level data by the controller itself in it_check
+        stores = []
+        for x in walk_no_nested(fn):
+            tg = []
+            if isinstance(x, ast.Assign):
+                tg = x.targets
+            elif isinstance(x, ast.AugAssign):
+                tg = [x.target]
+            for t in tg:
+                s = ast.unparse(t)
+                if re.search(r'levels\[[^\]]*\]\.(u|f|tau|uend|residual)\b', s):
+                    stores.append(s)
+        R.check(not stores, f'{cn}.it_check :: the handler itself stores nothing into level data', w, 'no store to levels[..].u/f/tau/uend', stores)
+    # ParaDiag: exception with reason
+    R.exc('controller_ParaDiag_nonMPI.it_check :: residual is one iterate old by documented design', f'{PARADIAG}:controller_ParaDiag_nonMPI.it_check', 'outside the anchors of C03; ParaDiag computes the residual of the previous iterate in its own stage')
+
+
+@rule('C03', 'C03.R4', 'convergence predicate: (iter >= maxiter or (residual <= restol and (iter > 0 or sweep > 0)) or e_tol branch or force_done) and not force_continue', floor=5)
+def r4(ctx, R):
+    repo = ctx.repo
+    rel = CC + 'check_convergence.py'
+    fn = repo.func(rel, 'CheckConvergence.check_convergence')
+    w = f'{rel}:CheckConvergence.check_convergence'
+    R.fn(w)
+    N = Normalizer(fn, inline_scalars=False)
+    defs = {}
+    for c in N.contribs:
+        if c.op == '=' and re.fullmatch(r'\w+', c.target) and isinstance(c.stmt, ast.Assign) and c.target not in defs:
+            defs[c.target] = c.stmt.value  # first definition; a later `x = False` fallback under `if x is None` is ignored
+    ret = [s for s in ast.walk(fn) if isinstance(s, ast.Return) and s.value is not None]
+    if len(ret) != 1 or not isinstance(ret[0].value, ast.Name) or ret[0].value.id not in defs:
+        raise AnalysisError(f'{w}: single `return <name>` not found')
+    conv = ret[0].value.id
+
+    def canon(n):
+        return ast.unparse(N.cexpr(n)).replace('S.levels[0]', 'L')
+
+    def expand(node):
+        # inline the boolean locals once
+        class T(ast.NodeTransformer):
+            def visit_Name(self, n):
+                if n.id in defs and n.id != conv and isinstance(n.ctx, ast.Load) and n.id not in ('S', 'L', 'self'):
+                    return defs[n.id]
+                return n
+        import copy
+        return T().visit(copy.deepcopy(node))
+
+    top = nnf(expand(defs[conv]), canon)
+    it = 'S.params.maxiter <= S.status.iter'
+    res = ('and', tuple(sorted(['L.status.residual <= L.params.restol', ('or', tuple(sorted(['0 < S.status.iter', '0 < L.status.sweep'], key=repr)))], key=repr)))
+    R.check(isinstance(top, tuple) and top[0] == 'and' and ('not', 'S.status.force_continue') in top[1], 'check_convergence :: conjoined with not force_continue', w, '... and not S.status.force_continue', top)
+    disj = [k for k in top[1] if isinstance(k, tuple) and k[0] == 'or'] if isinstance(top, tuple) else []
+    alts = disj[0][1] if disj else ()
+    R.check(it in alts, 'check_convergence :: budget exhausted is iter >= maxiter', w, it, [a for a in alts if isinstance(a, str)])
+    R.check(res in alts, 'check_convergence :: residual <= restol counts only after at least one sweep', w, res, [a for a in alts if isinstance(a, tuple)])
+    R.check('S.status.force_done' in alts, 'check_convergence :: force_done stops', w, 'S.status.force_done', [a for a in alts if isinstance(a, str)])
+    known = {it, res, 'S.status.force_done'}
+    rest = [a for a in alts if a not in known]
+    ok = len(rest) == 1 and 'e_tol' in repr(rest[0]) and 'increment' in repr(rest[0])
+    R.check(ok, 'check_convergence :: the only further disjunct is the e_tol/increment branch', w, 'L.status.increment < L.params.e_tol if both are set else False', rest)
+
+
+@rule('C03', 'C03.R5', 'who may write status.iter / status.done / force_continue; increment guarded by not done and followed by pre_iteration', floor=20)
+def r5(ctx, R):
+    repo = ctx.repo
+    W = ctx.memo('attr_writes', lambda: facts.attr_writes(repo))
+    allowed_iter = {
+        (NONMPI, 'controller_nonMPI.restart_block', '='), (NONMPI, 'controller_nonMPI.it_check', 'Add='),
+        (MPI, 'controller_MPI.restart_block', '='), (MPI, 'controller_MPI.it_check', 'Add='),
+        (PARADIAG, 'controller_ParaDiag_nonMPI.restart_block', '='), (PARADIAG, 'controller_ParaDiag_nonMPI.it_check', 'Add='),
+    }
+    seen = set()
+    for x in W:
+        if x.attr != 'iter' or not re.search(r'(^|\.)(S|step|T|MS\[[^\]]*\])\.status$', x.receiver):
+            continue
+        key = (x.module.relpath, (x.cls.name + '.' if x.cls else '') + x.fn.name, x.op)
+        seen.add(key)
+        ok = key in allowed_iter and (x.op == 'Add=' and x.rhs() == '1' or x.op == '=' and x.rhs() == '0')
+        R.check(ok, f'{key[1]} :: {x.target} {x.op} {x.rhs()}', x.qual, 'only restart_block (= 0) and it_check (+= 1) of a controller write the iteration counter', f'{x.target} {x.op} {x.rhs()}')
+    missing = allowed_iter - seen
+    if missing:
+        raise AnalysisError(f'C03.R5: expected writers of status.iter not found: {sorted(missing)}')
+    # the increment: guarded by `not done`, immediately followed by the pre_iteration emission
+    for rel, cn in ((NONMPI, 'controller_nonMPI'), (MPI, 'controller_MPI'), (PARADIAG, 'controller_ParaDiag_nonMPI')):
+        fn = repo.func(rel, f'{cn}.it_check')
+        w = f'{rel}:{cn}.it_check'
+        R.fn(w)
+        cfg = FuncCFG(fn)
+        inc = [s for n, s in cfg.stmt_of.items() if isinstance(s, ast.AugAssign) and ast.unparse(s.target).endswith('status.iter')]
+        if len(inc) != 1:
+            raise AnalysisError(f'{w}: expected one increment of status.iter, found {len(inc)}')
+        g = facts.guard_strings(cfg, inc[0])
+        recv = ast.unparse(inc[0].target)[: -len('.iter')]
+        R.check(any(re.fullmatch(rf'not \(?{re.escape(recv)}\.done\)?', x) for x in g), f'{cn}.it_check :: iter += 1 only under not done', w, f'not {recv}.done', g)
+        ni = cfg.node_of[id(inc[0])]
+        pre = [n for n in cfg.stmt_of if any(isinstance(c.func, ast.Attribute) and c.func.attr == 'pre_iteration' for c in cfg.calls_at(n))]
+        ok = len(pre) == 1 and cfg.dominates(ni, pre[0]) and cfg.guards[id(cfg.stmt_of[pre[0]])][: len(cfg.guards[id(inc[0])])] == cfg.guards[id(inc[0])]
+        R.check(ok, f'{cn}.it_check :: pre_iteration emitted in the arm of the increment, after it', w, 'iter += 1 dominates the single pre_iteration emission in the same arm', f'{len(pre)} emission(s)')
+    # done writers
+    allowed_done = {
+        'controller_nonMPI.restart_block', 'controller_nonMPI.it_check', 'controller_MPI.restart_block', 'controller_ParaDiag_nonMPI.restart_block',
+        'controller_ParaDiag_nonMPI.it_check', 'CheckConvergence.check_iteration_status', 'CheckConvergence.communicate_convergence',
+    }
+    table_exc = {
+        'AdaptiveCollocation.post_iteration_processing': 'resets done to continue with the next collocation problem: explicitly forced continuation',
+        'controller_MPI.check_iteration_estimate': 'interrupt-based iteration estimator (excluded by C08, forces termination by design)',
+        'controller_MPI.pfasst': 'interrupt-based iteration estimator (excluded by C08)',
+    }
+    for x in W:
+        if x.attr != 'done' or not x.receiver.endswith('.status') or not re.search(r'(^|\.)(S|step|T|MS\[[^\]]*\])\.status$', x.receiver):
+            continue
+        name = (x.cls.name + '.' if x.cls else '') + x.fn.name
+        c = f'{name} :: {x.target} = {x.rhs()}'
+        if name in allowed_done:
+            R.ok(c, x.qual, found='sanctioned writer')
+        elif name in table_exc:
+            R.exc(c, x.qual, table_exc[name])
+        else:
+            R.bad(c, x.qual, 'status.done is written only by restart_block, it_check and CheckConvergence (table B1)', f'new writer {name}')
+    # force_continue is consumed: cleared after the decision
+    fn = repo.func(CC + 'check_convergence.py', 'CheckConvergence.check_iteration_status')
+    w = f'{CC}check_convergence.py:CheckConvergence.check_iteration_status'
+    cfg = FuncCFG(fn)
+    dn = [n for n, s in cfg.stmt_of.items() if isinstance(s, ast.Assign) and ast.unparse(s.targets[0]) == 'S.status.done']
+    fc = [n for n, s in cfg.stmt_of.items() if isinstance(s, ast.Assign) and ast.unparse(s.targets[0]) == 'S.status.force_continue' and ast.unparse(s.value) == 'False']
+    ok = len(dn) == 1 and len(fc) == 1 and cfg.dominates(dn[0], fc[0]) and cfg.postdominates(fc[0], dn[0])
+    R.check(ok, 'check_iteration_status :: force_continue cleared after it was used, on every path', w, 'done = check_convergence(..) ; ... ; force_continue = False', f'{len(dn)} decision(s), {len(fc)} clear(s)')
+    rhs = ast.unparse(cfg.stmt_of[dn[0]].value) if dn else ''
+    R.check(rhs == 'self.check_convergence(S, self)', 'check_iteration_status :: done is the value of check_convergence for this step', w, 'self.check_convergence(S, self)', rhs)
+
+
+@rule('C03', 'C03.R6', 'what is logged is what decided: residual_post_* = L.status.residual, niter = step.status.iter', floor=4)
+def r6(ctx, R):
+    repo = ctx.repo
+    rel = 'pySDC/implementations/hooks/default_hook.py'
+    ci = repo.cls(rel, 'DefaultHooks')
+    want = {'residual_post_sweep': 'L.status.residual', 'residual_post_iteration': 'L.status.residual', 'residual_post_step': 'L.status.residual', 'niter': 'step.status.iter'}
+    got = {}
+    for fn in ci.methods.values():
+        for c in ast.walk(fn):
+            if isinstance(c, ast.Call) and isinstance(c.func, ast.Attribute) and c.func.attr == 'add_to_stats':
+                kw = {k.arg: k.value for k in c.keywords}
+                ty = kw.get('type')
+                if isinstance(ty, ast.Constant) and ty.value in want:
+                    got[ty.value] = (ast.unparse(kw['value']), fn.name, ast.unparse(kw.get('iter')) if kw.get('iter') is not None else None)
+    for k, v in want.items():
+        g = got.get(k)
+        ok = g is not None and g[0] == v
+        R.check(ok, f'DefaultHooks :: type={k!r} records {v}', f'{rel}:DefaultHooks.{g[1] if g else "?"}', v, g[0] if g else 'not recorded')
+    # L in those hooks is the level the callback was issued for
+    for fn in ci.methods.values():
+        if fn.name in ('post_sweep', 'post_iteration', 'post_step'):
+            N = Normalizer(fn)
+            a = N.env.alias.get('L')
+            R.check(a is not None and ast.unparse(a) == 'step.levels[level_number]', f'DefaultHooks.{fn.name} :: L is step.levels[level_number]', f'{rel}:DefaultHooks.{fn.name}', 'step.levels[level_number]', ast.unparse(a) if a is not None else None)
